@@ -146,3 +146,97 @@ Proof.
   exists (mkL (lit "r1") 22 (lit "root")), (mkB (lit "r1") 22), (mkP [] [] false [] []).
   vm_compute. discriminate.
 Qed.
+
+(* ---- several asyncssh objects, possibly holding ONE user dict ---- *)
+Lemma as_open_heap objs hp i : fst (as_open objs hp i) = hp.
+Proof.
+  unfold as_open. destruct (nth_error objs i) as [o|]; [|reflexivity].
+  destruct (nth_error hp (ao_d o)); reflexivity.
+Qed.
+
+(* the user's dicts are what they were, and the connect calls are, open by open, a function of the opened
+   object's own record and its dict as the user wrote it — whatever was opened before, whoever shares it *)
+Theorem as_hist_spec objs hp opens :
+  as_run as_open objs hp opens = (hp, flat_map (as_dial objs hp) opens).
+Proof.
+  induction opens as [|i r IH]; [reflexivity|].
+  cbn [as_run flat_map]. pose proof (as_open_heap objs hp i) as Hh. unfold as_dial at 1.
+  destruct (as_open objs hp i) as [hp' ev]. cbn [fst snd] in *. subst hp'. rewrite IH. reflexivity.
+Qed.
+
+Lemma kw_free_own o u l :
+  kw_free u -> lib_resolve l (own_kwargs o u) = (b_host (ao_b o), b_port (ao_b o), p_user (ao_p o)).
+Proof. destruct u as [h p n]. unfold kw_free. cbn. intros (-> & -> & ->). reflexivity. Qed.
+
+Theorem as_hist_reported objs hp opens i k :
+  In (i, k) (snd (as_run as_open objs hp opens)) ->
+  exists o u, nth_error objs i = Some o /\ nth_error hp (ao_d o) = Some u /\ k = own_kwargs o u /\
+    (kw_free u -> forall l, lib_resolve l k = (b_host (ao_b o), b_port (ao_b o), p_user (ao_p o))).
+Proof.
+  rewrite as_hist_spec. cbn [snd]. intros H. apply in_flat_map in H. destruct H as (j & _ & H).
+  unfold as_dial, as_open in H. destruct (nth_error objs j) as [o|] eqn:Ho; [|contradiction].
+  destruct (nth_error hp (ao_d o)) as [u|] eqn:Hu; [|contradiction].
+  cbn [snd] in H. destruct H as [H|[]]. injection H as -> <-.
+  exists o, u. split; [exact Ho|]. split; [exact Hu|]. split; [reflexivity|].
+  intros Hf l. apply kw_free_own. exact Hf.
+Qed.
+
+(* the aliasing is invisible: n devices given ONE dict connect exactly as n devices given each its own
+   copy of it, in every order of opens *)
+Lemma copied_nth devs : forall n i,
+  nth_error (devs_copied_from n devs) i =
+  match nth_error devs i with Some d => Some (mkAO (fst d) (snd d) (n + i)) | None => None end.
+Proof.
+  induction devs as [|d r IH]; intros n i; [destruct i; reflexivity|].
+  destruct i as [|i]; cbn [devs_copied_from nth_error].
+  - rewrite Nat.add_0_r. reflexivity.
+  - rewrite IH. replace (S n + i)%nat with (n + S i)%nat by lia. reflexivity.
+Qed.
+
+Lemma const_nth {A B} (u : B) (l : list A) i a :
+  nth_error l i = Some a -> nth_error (map (fun _ => u) l) i = Some u.
+Proof. intros H. rewrite nth_error_map, H. reflexivity. Qed.
+
+Theorem as_shared_eq_copies devs u opens :
+  snd (as_run as_open (devs_shared devs) [u] opens) =
+  snd (as_run as_open (devs_copied_from 0 devs) (map (fun _ => u) devs) opens).
+Proof.
+  rewrite !as_hist_spec. cbn [snd]. apply flat_map_ext. intros i.
+  unfold as_dial, as_open, devs_shared. rewrite copied_nth, nth_error_map.
+  destruct (nth_error devs i) as [d|] eqn:Hd; cbn [option_map]; [|reflexivity].
+  cbn [ao_d Nat.add nth_error]. rewrite (const_nth u devs i d Hd). reflexivity.
+Qed.
+
+(* ... but not for a transport that writes into the dict: two devices, one (empty) dict, the second
+   connects to the first one's host as the first one's user, and the user's dict is no longer empty *)
+Definition ao_r1 : as_obj := mkAO (mkB (lit "r1") 22) (mkP (lit "alice") [] false [] []) 0.
+Definition ao_fw : as_obj := mkAO (mkB (lit "fw-1") 830) (mkP (lit "breakglass") [] false [] []) 0.
+
+Theorem as_setdefault_shared_refuted :
+  exists objs hp opens i j oi oj k,
+    nth_error objs i = Some oi /\ nth_error objs j = Some oj /\ i <> j /\ shares_dict oi oj /\
+    Forall kw_free hp /\
+    In (j, k) (snd (as_run as_open_setdefault objs hp opens)) /\
+    (forall l, lib_resolve l k <> (b_host (ao_b oj), b_port (ao_b oj), p_user (ao_p oj))) /\
+    fst (as_run as_open_setdefault objs hp opens) <> hp.
+Proof.
+  exists [ao_r1; ao_fw], [kw_empty], [0%nat; 1%nat], 0%nat, 1%nat, ao_r1, ao_fw, (own_kwargs ao_r1 kw_empty).
+  split; [reflexivity|]. split; [reflexivity|]. split; [discriminate|]. split; [reflexivity|].
+  split; [repeat constructor|]. split; [vm_compute; right; left; reflexivity|].
+  split; [intros l; vm_compute; discriminate|]. vm_compute. discriminate.
+Qed.
+
+(* each device with its own dict looks right even then (why per-device option dicts cannot show it) *)
+Example as_setdefault_copies_look_right :
+  snd (as_run as_open_setdefault (devs_copied_from 0 [(ao_b ao_r1, ao_p ao_r1); (ao_b ao_fw, ao_p ao_fw)])
+                                 [kw_empty; kw_empty] [0%nat; 1%nat; 0%nat]) =
+  snd (as_run as_open (devs_copied_from 0 [(ao_b ao_r1, ao_p ao_r1); (ao_b ao_fw, ao_p ao_fw)])
+                      [kw_empty; kw_empty] [0%nat; 1%nat; 0%nat]).
+Proof. vm_compute. reflexivity. Qed.
+
+(* premises satisfiable: a non-trivial history over a shared dict *)
+Example as_hist_example :
+  as_run as_open [ao_r1; ao_fw] [kw_empty] [1%nat; 0%nat; 1%nat; 5%nat] =
+  ([kw_empty], [(1%nat, asyncssh_kwargs (ao_b ao_fw) (ao_p ao_fw)); (0%nat, asyncssh_kwargs (ao_b ao_r1) (ao_p ao_r1));
+                (1%nat, asyncssh_kwargs (ao_b ao_fw) (ao_p ao_fw))]).
+Proof. vm_compute. reflexivity. Qed.
